@@ -37,6 +37,9 @@ class Check(FormulaCheck):
         specs = [{'campaign': 'sentinels'}]
         for i in range(16):
             specs.append({'campaign': 'random', 'seed': seed, 'n': 1200 if q else 30000, 'i': i})
+        # the same workload with the process in other time zones (daylight-saving rules of both hemispheres, a half-hour offset)
+        for z in ('EST5EDT,M3.2.0,M11.1.0', 'AEST-10AEDT,M10.1.0,M4.1.0/3', 'IST-5:30'):
+            specs.append({'campaign': 'random', 'seed': seed, 'n': 400 if q else 8000, 'i': 'tz', 'tz': z})
         if q:
             years = [1900, 1901, 1903, 1904, 1999, 2000, 2001, 2020, 2023, 2024, 2099, 2100, 2101, 2399, 2400, 9998, 9999, 1950, 3000, 4000]
             for i in range(4):
@@ -165,6 +168,22 @@ class Check(FormulaCheck):
                 self.chk('DAYS' + jan1, 'DAYS(%s,%s)' % (B, A), b.toordinal() - a.toordinal())
             if not strad and J1 not in (a, b):
                 self.with_time_of_day(rnd, a, b)
+            if a >= M1:
+                # the same two dates written differently on each side (DATE(), ISO text, date-time text at midnight, serial number):
+                # the calendar difference does not depend on the spelling - in particular a date and itself are 0 apart
+                def spell(d):
+                    return rnd.choice([dcall(d), '"%s"' % d.isoformat(), '"%sT00:00:00"' % d.isoformat(), '"%s 00:00"' % d.isoformat(), str(d.toordinal() - BASE_ORD)])
+                for x, y, tag in ((a, a, 'same-day'), (a, b, 'two-days')):
+                    if y < M1 or x > y:
+                        continue
+                    sx, sy = spell(x), spell(y)
+                    if sx == sy:
+                        continue
+                    u = rnd.choice(['d', 'm', 'y', 'ym'])
+                    months2 = (y.year - x.year) * 12 + y.month - x.month - (1 if y.day < x.day else 0)
+                    exp2 = {'d': y.toordinal() - x.toordinal(), 'm': months2, 'y': y.year - x.year - (1 if (y.month, y.day) < (x.month, x.day) else 0), 'ym': months2 % 12}[u]
+                    self.chk('DATEDIF-%s:%s-spelled-differently' % (u, tag), 'DATEDIF(%s,%s,"%s")' % (sx, sy, u), exp2)
+                    self.chk('DAYS:%s-spelled-differently' % tag, 'DAYS(%s,%s)' % (sy, sx), y.toordinal() - x.toordinal())
             months = (b.year - a.year) * 12 + b.month - a.month - (1 if b.day < a.day else 0)
             for u in 'dmyDMY':
                 if a > b:
